@@ -2,6 +2,8 @@
    Over the transition system PipeConc (all T >= 1, all inputs, all schedules, any cipher
    stream object).  Only statements; proofs are [exact]s of lemmas of PipeProofs. *)
 From Wencry Require Import Bytes FileModel PipeConc PipeProps PipeProofs.
+From Wencry Require PipeSync.
+From Wencry.Gen Require Sync.
 Local Open Scope nat_scope.
 
 Section C14.
@@ -40,3 +42,9 @@ End C14.
 Print Assumptions C14_exclusive_hand_over.
 Print Assumptions C14_token_moves.
 Print Assumptions C14_workers_touch_only_their_buffer.
+
+(* the functions of the hand-over protocol, as clang reads the CURRENT sources, are textually the ones the transition system
+   was written from (regenerated on every run; see PipeSync.v) *)
+Theorem C14_protocol_text_is_the_modelled_one : Sync.sync_skeleton = PipeSync.expected_skeleton.
+Proof. exact PipeSync.skeleton_unchanged. Qed.
+Print Assumptions C14_protocol_text_is_the_modelled_one.
